@@ -139,8 +139,15 @@ def _src():
 BRANCH_AS = {"tuple": tuple, "sequence": lambda els: Sequence(*els), "list": list}
 
 
-def build(items, reg, path=(), exp=None, branch_as="tuple"):
+def _bare_split_branch(br):
+    """a branch that is one Split all of whose branches hold an accumulator: such a Split has fill and compute and can
+    be given to the enclosing Split as it is (not wrapped into a sequence)"""
+    return len(br) == 1 and br[0][0] == "split" and all(any(x[0] == "acc" for x in b) for b in br[0][1])
+
+
+def build(items, reg, path=(), exp=None, branch_as="tuple", opts=None):
     els = []
+    opts = opts or {}
     if exp is None:
         exp = {}
     for i, it in enumerate(items):
@@ -166,10 +173,17 @@ def build(items, reg, path=(), exp=None, branch_as="tuple"):
         elif k == "acc":
             els.append(Sum())
         elif k == "seq":
-            els.append(Sequence(*build(it[1], reg, p, exp, branch_as)))
+            els.append(Sequence(*build(it[1], reg, p, exp, branch_as, opts)))
             exp[p] = els[-1]
         elif k == "split":
-            els.append(Split([BRANCH_AS[branch_as](build(br, reg, p + (j,), exp, branch_as)) for j, br in enumerate(it[1])]))
+            brs = []
+            for j, br in enumerate(it[1]):
+                bels = build(br, reg, p + (j,), exp, branch_as, opts)
+                if opts.get("bare_split_branches") and _bare_split_branch(br):
+                    brs.append(bels[0])
+                else:
+                    brs.append(BRANCH_AS[branch_as](bels))
+            els.append(Split(brs, copy_buf=opts.get("copy_buf", True)))
             exp[p] = els[-1]
         elif k == "splitbare":
             els.append(Split([Sum() for _ in range(it[1])]))
@@ -182,7 +196,7 @@ def build(items, reg, path=(), exp=None, branch_as="tuple"):
 
 
 def build_root(case, reg, exp=None):
-    els = build(case["items"], reg, (), exp, case.get("branch_as", "tuple"))
+    els = build(case["items"], reg, (), exp, case.get("branch_as", "tuple"), case.get("opts"))
     if case["root"] == "source":
         return Source(*els)
     if case["root"] == "fcseq":
@@ -424,7 +438,7 @@ def judge_tree(case):
             if case["root"] == "fcseq" and not any(x[0] == "acc" for x in titems):
                 titems.append(["acc"])
             treg = {}
-            build_root({"root": case["root"], "items": titems, "branch_as": case.get("branch_as", "tuple")}, treg)
+            build_root({"root": case["root"], "items": titems, "branch_as": case.get("branch_as", "tuple"), "opts": case.get("opts")}, treg)
             it = node_at(items, p)
             tobs = observe(it, treg[p], p)
             if tobs != observed[p]:
@@ -435,7 +449,7 @@ def judge_tree(case):
         if later_matters:
             classes.append("causality-checked")
         # 4. static context reaches run-time contexts only through UpdateContextFromStatic
-        if mdl.first_unres is None and not has_kind(items, ("splitbare", "acc")):
+        if mdl.first_unres is None and not has_kind(items, ("splitbare", "acc")) and (case.get("opts") or {}).get("copy_buf", True):
             probe = [(i, copy.deepcopy(c)) for i, c in enumerate(case.get("probe", [{}, {}]))]
             PROBE[0] = probe
             try:
@@ -521,6 +535,8 @@ def leaf():
         st.just(["store"]), st.just(["store"]), st.just(["ucfs"]),
         st.builds(lambda t: ["mkfn", t], name_templates),
         st.builds(lambda t: ["write", t], name_templates),
+        st.builds(lambda t: ["write", t], st.sampled_from(["{{r}}", "{{r}}/{{a}}", "{{a}}/{{r}}"])),
+        st.builds(lambda v: ["set", "r", v], st.sampled_from(["/abs_q", "/abs_q/w", "rel"])),
         st.builds(lambda t: ["cache", t], name_templates),
         st.just(["call"]),
     )
@@ -621,6 +637,21 @@ def tree_case(draw):
         else:
             k = draw(st.integers(0, min(2, len(items))))
             items = items[:k] + arm + items[k:]
+    opts = {}
+    if draw(st.integers(0, 3)) == 0:
+        opts["copy_buf"] = False
+    if draw(st.integers(0, 7)) == 0:
+        # a Split given to a Split as it is: inner branches that override a key differently, a sibling that keeps it
+        key = draw(st.sampled_from(["a", "b", "c.d"]))
+        fillable = lambda xs: [x for x in xs if x[0] in ("set", "setf", "store", "call", "mkfn")]   # noqa
+        inner = [[["set", key, "v%d" % j]] + fillable(draw(st.lists(leaf(), max_size=1))) + [["acc"]] + draw(st.lists(leaf(), max_size=1))
+                 for j in range(draw(st.integers(1, 3)))]
+        sibling = fillable(draw(st.lists(leaf(), max_size=2))) + [["acc"]]
+        brs = [[["split", inner]], sibling] if draw(st.booleans()) else [sibling, [["split", inner]]]
+        k = draw(st.integers(0, min(2, len(items))))
+        items = items[:k] + [["set", key, 1]] * draw(st.integers(0, 1)) + [["split", brs]] + draw(st.lists(leaf(), min_size=1, max_size=2)) + items[k:]
+        opts["bare_split_branches"] = True
+        branch_as = "tuple"
     if root == "source":
         # the generating element is the first data element (only context elements may precede it)
         pos = 0
@@ -635,7 +666,7 @@ def tree_case(draw):
     rt = st.dictionaries(st.sampled_from(["a", "b", "z"]), st.sampled_from([3, "r", "s"]), max_size=2)
     probe = draw(st.one_of(st.just([{}, {}]), st.lists(rt, min_size=2, max_size=3)))
     return {"root": root, "items": items, "check_paths": [list(p) for p in chosen],
-            "branch_as": branch_as, "probe": probe}
+            "branch_as": branch_as, "probe": probe, "opts": opts}
 
 
 CHECKS = [
